@@ -661,6 +661,7 @@ pub fn run(args: &Args) -> i32 {
         return if g.0 > 0 && g.0 == g.1 { 0 } else { 2 };
     }
     report.set("ops_by_kind", ops.json());
+    report.set("table_shapes", crate::hist::TABLE_SHAPES.json());
     report.set("api_calls", apis.json());
     report.set("behaviour_on_unresolvable_keys", behaviour.json());
     report.set("op_failures_and_rejections", diag.json());
